@@ -282,9 +282,10 @@ class Geometry(DaeObject):
             if isinstance(prim, triangleset.TriangleSet) and prim.xmlnode.tag != tag('triangles'):
                 prim._recreateXmlNode()
 
-        # the mesh holds the sources, <vertices> and the primitives, in the model's order
+        # the mesh holds the sources, <vertices> and the primitives, in the model's order,
+        # followed by any <extra> it already had
         primnodes = [prim.xmlnode for prim in self.primitives]
-        _syncChildren(meshnode, srcnodes + [vnode] + primnodes)
+        _syncChildren(meshnode, srcnodes + [vnode] + primnodes + meshnode.findall(tag('extra')))
 
     def bind(self, matrix, materialnodebysymbol):
         """Binds this geometry to a transform matrix and material mapping.
